@@ -14,14 +14,14 @@ import (
 const vMaxParties = 4
 
 type vParty struct {
-	Sk  *rlwe.SecretKey
-	CRS *sampling.KeyedPRNG
-	CKG PublicKeyGenProtocol
-	RKG RelinearizationKeyGenProtocol
-	GKG GaloisKeyGenProtocol
-	EKG EvaluationKeyGenProtocol
-	CKS KeySwitchProtocol
-	PCKS PublicKeySwitchProtocol
+	Sk    *rlwe.SecretKey
+	CRS   *sampling.KeyedPRNG
+	CKG   PublicKeyGenProtocol
+	RKG   RelinearizationKeyGenProtocol
+	GKG   GaloisKeyGenProtocol
+	EKG   EvaluationKeyGenProtocol
+	CKS   KeySwitchProtocol
+	PCKS  PublicKeySwitchProtocol
 	SkOut *rlwe.SecretKey
 }
 
